@@ -49,13 +49,15 @@ class HarnessError(Exception):
 
 class Sub(object):
     def __init__(self, name, check, gen=None, examples=None, enum=None,
-                 doc=''):
+                 doc='', machine=None, steps=50):
         self.name = name
         self.check = check
         self.gen = gen            # () -> hypothesis strategy
         self.examples = examples or {'quick': 200, 'thorough': 2000}
         self.enum = enum          # (tier) -> iterable of cases (deterministic)
         self.doc = doc
+        self.machine = machine    # (record) -> RuleBasedStateMachine subclass; histories are replayed through check()
+        self.steps = steps
 
 
 # ---------------------------------------------------------------------------
@@ -190,7 +192,8 @@ def exec_case(sub, case, stats, excludes=()):
         return
     except Violation as v:
         stats.evaluations += 1
-        v.case = case
+        if v.case is None:
+            v.case = case
         raise
     stats.record(case, info)
 
@@ -215,7 +218,7 @@ def run_sub_shard(args):
                         continue
                     stats.enumerated += 1
                     exec_case(sub, case, stats, excludes)
-            if sub.gen is not None:
+            if sub.gen is not None or sub.machine is not None:
                 n = sub.examples.get(tier, 100)
                 n_here = n // nshards + (1 if shard < n % nshards else 0)
                 if n_here > 0:
@@ -238,18 +241,49 @@ def _run_hypothesis(sub, n, hseed, stats, excludes):
     from hypothesis import HealthCheck, Phase, given, settings
     import hypothesis.errors as herr
 
+    if sub.machine is not None:
+        return _run_machine(sub, n, hseed, stats, excludes)
+
     @hypothesis.seed(hseed)
     @settings(max_examples=n, database=None, deadline=None,
               report_multiple_bugs=False, derandomize=False,
               suppress_health_check=list(HealthCheck),
               phases=[Phase.generate, Phase.shrink],
-              print_blob=False)
+              print_blob=False, verbosity=hypothesis.Verbosity.quiet)
     @given(sub.gen())
     def _t(case):
         exec_case(sub, case, stats, excludes)
 
     try:
         _t()
+    except Violation:
+        raise
+    except (herr.Unsatisfiable, herr.FailedHealthCheck) as e:
+        raise HarnessError('generator problem in %s: %r' % (sub.name, e))
+    except herr.Flaky as e:
+        raise HarnessError('non-deterministic case in %s: %r' % (sub.name, e))
+
+
+def _run_machine(sub, n, hseed, stats, excludes):
+    """Stateful (rule-based) generation.  The machine's rules only choose operations; every
+    operation is applied through sub.check-compatible interpreter code, and the machine reports
+    the finished history through `record(case, info)` so that histories are counted, sampled
+    and replayable like any other case."""
+    import hypothesis
+    from hypothesis import HealthCheck, Phase, settings, Verbosity
+    from hypothesis.stateful import run_state_machine_as_test
+    import hypothesis.errors as herr
+
+    def record(case, info):
+        stats.record(case, info)
+
+    cls = sub.machine(record)
+    try:
+        run_state_machine_as_test(
+            hypothesis.seed(hseed)(cls),
+            settings=settings(max_examples=n, stateful_step_count=sub.steps, database=None, deadline=None,
+                              report_multiple_bugs=False, derandomize=False, suppress_health_check=list(HealthCheck),
+                              phases=[Phase.generate, Phase.shrink], print_blob=False, verbosity=Verbosity.quiet))
     except Violation:
         raise
     except (herr.Unsatisfiable, herr.FailedHealthCheck) as e:
